@@ -369,7 +369,8 @@ def jwt_variants(rng, name, quick):
                 o2 = dict(obj)
                 o2[m] = v
                 yield "%s-retyped:%s" % (part, m), mk_jwt(o2 if part == "header" else header, claims if part == "header" else o2)
-    for raw in (b"", b"[]", b"null", b"5", b"\"s\"", b"{", b"\xff\xfe", b"{\"exp\":1e999}", b"{\"iss\":\"\\ud800\"}"):
+    for raw in (b"", b"[]", b"null", b"5", b"\"s\"", b"{", b"\xff\xfe", b"{\"exp\":1e999}", b"{\"iss\":\"\\ud800\"}", b'{"iss":"a","iss":"a"}',
+                b'{"exp":NaN}', b'{"exp":Infinity,"iat":-Infinity}', b'{"x":' + b"[" * 100000 + b"]" * 100000 + b"}", b"[" * 100000):
         yield "payload-not-claims", mk_jwt(header, raw)
     good = mk_jwt(header, claims).encode()
     for lab, t in seg_mutations(rng, good, quick):
@@ -555,7 +556,9 @@ def run_endpoints(ctx):
         hd.pop("Authorization", None)
         variants.append(("no-authz-header", dict(params), hd, None, None, None))
         # raw bodies / queries / content types
-        raws = ["%", "a=%zz", "a=%e9&a=%e9", "=", "&&&", "grant_type=password&grant_type=client_credentials", "\xff\xfe", "a" * 20000, "grant_type", "{",
+        raws = ['{"client_name":"a","client_name":"b","redirect_uris":["https://x.example/cb"]}', '{"redirect_uris":' + "[" * 100000 + "]" * 100000 + "}", "[" * 100000,
+                '{"redirect_uris":["https://x.example/cb"],"default_max_age":1e999}', '{"redirect_uris":["https://x.example/cb"],"x":NaN}',
+                "%", "a=%zz", "a=%e9&a=%e9", "=", "&&&", "grant_type=password&grant_type=client_credentials", "\xff\xfe", "a" * 20000, "grant_type", "{",
                 "client_id=c1&client_id=pub", "scope=%00", "redirect_uri=%0d%0a", "x=1;y=2", "[1,2", "null", "[]", "\"str\"", "{\"a\":", "{\"redirect_uris\": \"x\"}"]
         for raw in raws:
             if placement == "query":
@@ -607,6 +610,12 @@ def seg_mutations(rng, token, quick):
                b64u(json.dumps({"alg": "ECDH-ES+A128KW", "enc": "A128GCM", "epk": {"kty": "EC", "crv": "P-256", "x": 5, "y": []}, "apu": 5, "apv": []}).encode()),
                base64.urlsafe_b64encode(b"{\"alg\":\"A128GCMKW\",\"enc\":\"A128GCM\",\"iv\":5,\"tag\":null}").rstrip(b"="),
                base64.urlsafe_b64encode(b"{\"alg\":\"A128GCMKW\",\"enc\":\"A128GCM\"}").rstrip(b"=")]
+    # JSON that parses oddly: repeated member names (at the top and nested), literals outside the finite numbers, very deep nesting
+    for raw in (b'{"alg":"HS256","kid":"k","alg":"HS256"}', b'{"alg":"HS256","alg":"none"}', b'{"alg":"HS256","jwk":{"kty":"oct","kty":"oct","k":"AA"}}',
+                b'{"alg":"HS256","x":NaN}', b'{"alg":"HS256","x":Infinity}', b'{"alg":"HS256","x":1e999}', b'{"alg":"HS256","x":-0}', b'{"alg":"HS256","x":1' + b"0" * 5000 + b"}",
+                b'{"alg":"HS256","x":' + b"[" * 100000 + b"]" * 100000 + b"}", b"[" * 100000, b'{"a":' * 50000, b'{"alg":"HS256","\ud800":1}', b'{"alg":"HS256","x":"\ud800"}',
+                b'\xef\xbb\xbf{"alg":"HS256"}', b' {"alg":"HS256"} ', b'{"alg":"HS256"}\n{"alg":"none"}', b'{"alg":"HS256",}', b"{'alg':'HS256'}"):
+        bad_b64.append(b64u(raw))
     # the algorithm swapped for another registered one, of this and of other key families
     for alg in ("none", "HS384", "RS256", "PS256", "ES256", "ES256K", "EdDSA"):
         bad_b64.append(b64u(json.dumps({"alg": alg, "kid": "k"}).encode()))
